@@ -52,6 +52,7 @@ type HistOpts struct {
 	WFire         int
 	WStopRel      int
 	WRead         int
+	WReload       int  // weight of definition reload operations (C16)
 	HTTP          bool // observe (and drive half of the requests) through the real HTTP handler with a valid token
 }
 
@@ -112,6 +113,10 @@ type seqRun struct {
 	api   *core.API
 	orders       map[string][]string
 	orderChecked map[string]bool
+	reloaded     bool
+	removed      []gen.PipeSpec // pipelines removed by a reload (may be re-added)
+	fired        map[string]bool // jobs whose delay was fired by the driver
+	everRemoved  map[string]bool // pipelines that did not remain defined throughout the history
 }
 
 func (h *HistResult) sit(prop, s string) {
@@ -240,6 +245,7 @@ const (
 	opFire
 	opStopRel
 	opRead
+	opReload
 )
 
 func (q *seqRun) doOp() {
@@ -264,7 +270,7 @@ func (q *seqRun) doOp() {
 			pendingTimers = append(pendingTimers, j.ID)
 		}
 	}
-	w := map[opKind]int{opSchedule: q.o.WSchedule, opRead: q.o.WRead}
+	w := map[opKind]int{opSchedule: q.o.WSchedule, opRead: q.o.WRead, opReload: q.o.WReload}
 	if len(runningTasks) > 0 {
 		w[opFinish] = q.o.WFinish
 	}
@@ -285,7 +291,7 @@ func (q *seqRun) doOp() {
 	}
 	pick := q.r.Intn(total)
 	var op opKind
-	for _, k := range []opKind{opSchedule, opFinish, opCancel, opFire, opStopRel, opRead} {
+	for _, k := range []opKind{opSchedule, opFinish, opCancel, opFire, opStopRel, opRead, opReload} {
 		if pick < w[k] {
 			op = k
 			break
@@ -304,7 +310,24 @@ func (q *seqRun) doOp() {
 		if len(pendingTimers) > 0 && q.r.Intn(10) > 0 {
 			q.opFire(pendingTimers[q.r.Intn(len(pendingTimers))])
 		} else {
-			q.opFire(q.jobs[q.r.Intn(len(q.jobs))].ID)
+			// a spurious / late timer event: must be harmless
+			var cands []string
+			for _, j := range q.jobs {
+				mj := q.m.Jobs[j.ID]
+				if mj == nil {
+					continue
+				}
+				if mj.State == model.JFinished && mj.Sim != nil && mj.Sim.Verdict().Canceled == model.Either {
+					continue
+				}
+				cands = append(cands, j.ID)
+			}
+			if len(cands) == 0 {
+				q.journal("read")
+				q.settle(nil)
+				return
+			}
+			q.opFire(cands[q.r.Intn(len(cands))])
 		}
 	case opStopRel:
 		jt := stopping[q.r.Intn(len(stopping))]
@@ -312,7 +335,80 @@ func (q *seqRun) doOp() {
 	case opRead:
 		q.journal("read")
 		q.settle(nil)
+	case opReload:
+		q.opReload()
 	}
+}
+
+// confProps: which properties a model mismatch refutes (after a reload the unchanged-definition clauses do not apply)
+func (q *seqRun) confProps() []string {
+	if q.reloaded {
+		return []string{"C16"}
+	}
+	return conformanceProps
+}
+
+// opReload replaces the definitions with a mutated copy at the current point of every job's life
+func (q *seqRun) opReload() {
+	var descs []string
+	n := 1 + q.r.Intn(2)
+	for i := 0; i < n; i++ {
+		switch {
+		case len(q.removed) > 0 && q.r.Intn(3) == 0:
+			// re-add a removed pipeline (possibly changed)
+			sp := q.removed[len(q.removed)-1]
+			q.removed = q.removed[:len(q.removed)-1]
+			q.specs = append(q.specs, sp)
+			descs = append(descs, "re-add "+sp.Name)
+		case len(q.specs) > 1 && q.r.Intn(8) == 0:
+			k := q.r.Intn(len(q.specs))
+			sp := q.specs[k]
+			q.specs = append(q.specs[:k:k], q.specs[k+1:]...)
+			q.removed = append(q.removed, sp)
+			if q.everRemoved == nil {
+				q.everRemoved = map[string]bool{}
+			}
+			q.everRemoved[sp.Name] = true
+			descs = append(descs, "remove "+sp.Name)
+		default:
+			k := q.r.Intn(len(q.specs))
+			ns, d := gen.MutateSpec(q.r, q.specs[k])
+			q.specs[k] = ns
+			descs = append(descs, q.specs[k].Name+": "+d)
+		}
+	}
+	// optionally park a running job between two tasks while the definitions are swapped
+	parked := ""
+	for _, j := range q.jobs {
+		mj := q.m.Jobs[j.ID]
+		if mj != nil && mj.State == model.JRunning && !mj.CancelAsked && q.r.Intn(3) == 0 {
+			q.sys.ParkWhen(j.ID, func(int64, map[string]int32) bool { return true })
+			deadline := time.Now().Add(q.o.Watchdog)
+			for {
+				if p, _ := q.sys.Parked(j.ID); p || time.Now().After(deadline) {
+					break
+				}
+				time.Sleep(50 * time.Microsecond)
+			}
+			parked = j.ID
+			break
+		}
+	}
+	before := q.view
+	q.journal("reload: %s%s", strings.Join(descs, "; "), map[bool]string{true: " (while " + q.jn(parked) + " is parked between tasks)", false: ""}[parked != ""])
+	q.res.sit("C16", "reload "+strings.Join(descs, ";")[:min(40, len(strings.Join(descs, ";")))])
+	q.reloaded = true
+	q.sys.Replace(0, gen.BuildDefs(q.specs), strings.Join(descs, "; "))
+	q.m.SetCfg(gen.ModelCfg(q.specs))
+	after := q.sys.Snapshot(-1)
+	// across the ReplaceDefinitions call itself no job is canceled, started, duplicated or lost
+	if !reflect.DeepEqual(before.Jobs, after.Jobs) {
+		q.find([]string{"C16"}, "C16:reload-changed-existing-jobs", "the job list differs across ReplaceDefinitions (%s): %d jobs before, %d after", strings.Join(descs, "; "), len(before.Jobs), len(after.Jobs))
+	}
+	if parked != "" {
+		q.sys.Unpark(parked)
+	}
+	q.settle(nil)
 }
 
 func (q *seqRun) listFlags() map[string]prunner.PipelineInfo {
@@ -438,6 +534,10 @@ func (q *seqRun) opStopRelease(job, task string) {
 }
 
 func (q *seqRun) opFire(job string) {
+	if q.fired == nil {
+		q.fired = map[string]bool{}
+	}
+	q.fired[job] = true
 	mj := q.m.Jobs[job]
 	q.journal("fire-delay %s (model: %s pending=%v)", q.jn(job), mj.State, mj.TimerPending)
 	q.res.sit("C07", fmt.Sprintf("fire state=%s pending=%v R%d W%d", mj.State, mj.TimerPending, len(q.m.Running[mj.Pipe]), len(q.m.Waiting[mj.Pipe])))
@@ -615,12 +715,12 @@ func (q *seqRun) compare(v core.View) {
 			q.find([]string{"C01"}, "C01:more-executing-than-concurrency", "pipeline %s: %d jobs executing %s with concurrency %d", p, len(obsExec), q.jns(obsExec), cfg.Concurrency)
 		}
 		if !reflect.DeepEqual(obsExec, mRun) && !(len(obsExec) == 0 && len(mRun) == 0) {
-			props := append([]string(nil), conformanceProps...)
+			props := append([]string(nil), q.confProps()...)
 			// a job the model has running but the system still shows waiting is stranded (free slot, delay expired)
 			for _, id := range mRun {
 				if oj := v.ByID(id); oj != nil && oj.Waiting() {
 					props = append(props, "C07", "C16")
-					q.find([]string{"C03", "C07"}, "C03:stranded-with-free-slot", "pipeline %s: %s is still waiting at quiescence although a slot is free and its delay has expired (executing %s, waiting %s)", p, q.jn(id), q.jns(obsExec), q.jns(obsWait))
+					q.find(strandProps(q.reloaded), "C03:stranded-with-free-slot", "pipeline %s: %s is still waiting at quiescence although a slot is free and its delay has expired (executing %s, waiting %s)", p, q.jn(id), q.jns(obsExec), q.jns(obsWait))
 				}
 			}
 			for _, id := range obsExec {
@@ -631,7 +731,7 @@ func (q *seqRun) compare(v core.View) {
 			q.find(props, "conformance:executing-set", "pipeline %s: executing %s, model %s (model state %s)", p, q.jns(obsExec), q.jns(mRun), q.m)
 		}
 		if !reflect.DeepEqual(obsWait, mWait) && !(len(obsWait) == 0 && len(mWait) == 0) {
-			q.find(append([]string{"C07"}, conformanceProps...), "conformance:waiting-list", "pipeline %s: waiting %s, model %s (model state %s)", p, q.jns(obsWait), q.jns(mWait), q.m)
+			q.find(append([]string{"C07"}, q.confProps()...), "conformance:waiting-list", "pipeline %s: waiting %s, model %s (model state %s)", p, q.jns(obsWait), q.jns(mWait), q.m)
 		}
 		if cfg.QueueLimit != nil && len(obsWait) > *cfg.QueueLimit {
 			q.find([]string{"C05"}, "C05:more-waiting-than-queue-limit", "pipeline %s: %d jobs waiting with queue_limit %d", p, len(obsWait), *cfg.QueueLimit)
@@ -881,6 +981,10 @@ func (q *seqRun) drain() {
 				}
 			case model.JWaiting:
 				if mj.TimerPending {
+					if q.fired == nil {
+						q.fired = map[string]bool{}
+					}
+					q.fired[j.ID] = true
 					q.m.FireDelay(j.ID)
 					q.sys.FireDelay(0, j.ID)
 					progressed = true
@@ -905,8 +1009,11 @@ func (q *seqRun) drain() {
 			continue
 		}
 		q.res.sit("C03", fmt.Sprintf("drain %s delay=%v", classOf(j.Spec), j.Spec.Def.StartDelay > 0))
+		if q.spec(j.Pipe) == nil || q.everRemoved[j.Pipe] {
+			continue // the pipeline did not remain defined
+		}
 		if !oj.Terminal() {
-			q.find([]string{"C03"}, "C03:not-terminal-after-drain", "J%d (%s) is neither completed nor canceled after all tasks were released and all delays expired: start=%v", j.Ord, j.Pipe, oj.Start != nil)
+			q.find(append([]string{"C03"}, map[bool][]string{true: {"C16"}, false: nil}[q.reloaded]...), "C03:not-terminal-after-drain", "J%d (%s) is neither completed nor canceled after all tasks were released and all delays expired: start=%v", j.Ord, j.Pipe, oj.Start != nil)
 		}
 	}
 }
@@ -983,4 +1090,11 @@ func (q *seqRun) compareAPIJob(aj *core.APIJob, oj *core.JobSnap, where string) 
 			q.find([]string{"C15", "C08"}, "C15:http-task-differs-from-runner", "%s task %d: API %s/%s errored=%v exit=%d, runner %s/%s errored=%v exit=%d", q.jn(oj.ID), i, at.Name, at.Status, at.Errored, at.ExitCode, ot.Name, ot.Status, ot.Errored, ot.ExitCode)
 		}
 	}
+}
+
+func strandProps(reloaded bool) []string {
+	if reloaded {
+		return []string{"C16", "C03"}
+	}
+	return []string{"C03", "C07"}
 }
